@@ -44,7 +44,7 @@ def shape_of_spans(sp):
     return "a"
 
 
-WALK_CORPUS = [b"(a b . #nil)", b"(a . #nil)", b"(a . b)", b"(a b)", b"((a . #nil) . #nil)", b"(a . #(1 (2 . #nil)))", b"(a . \"s\")", b"(#nil . #nil)",
+WALK_CORPUS = [b"#nil", b"(a #nil . b)", b"#(#nil ())", b"'#nil", b"(a b . #nil)", b"(a . #nil)", b"(a . b)", b"(a b)", b"((a . #nil) . #nil)", b"(a . #(1 (2 . #nil)))", b"(a . \"s\")", b"(#nil . #nil)",
                b"(a (b . #nil) c)", b"'(a . #nil)", b"(a . #t)", b"(a . #f)", b"(a . 1)", b"(a . #\\x)", b"(a . #:k)", b"(a . #u8(1))", b"()", b"(())", b"(a . ())"]
 
 
@@ -204,6 +204,67 @@ def claim_datum_list_iter(cx, res, kf):
                         res.must_be_unsat(here, "the dotted tail recorded is not the cell's cdr with the cdr's span information", onm)
     for k, n in seen.items():
         res.vacuity.append(("ListIter::next from state %s" % k, n > 0))
+
+
+def claim_ref_list_iter(cx, res, kf):
+    """Ref::list_iter (and Datum::list_iter through it): an iterator exactly for pairs and the empty list - what
+    Value::list_iter answers for the same value - and None for everything else (#nil, atoms, vectors)."""
+    SI = cx.enums["SpanInfo"]
+    VAL = cx.enums["Value"]
+    LC = cx.enums["ListCursor"]
+    onm = walk_replay(res)
+    fn = None
+    for n, f in cx.fns.items():
+        if "lexpr/src/datum.rs" in n and n.endswith("::list_iter") and "Ref" in f.local_ty.get(f.args[0], ""):
+            fn = f
+    if fn is None:
+        res.error = "Ref::list_iter not found"
+        return
+    eng = C.make_engine(cx, [], loop_mode="cut", timeout_s=60, max_paths=2000)
+    eng.stubs = S.COMBINATOR_STUBS + S.CORE_STUBS
+    info = {}
+
+    def init(e, st, fr):
+        v = sym_value(cx, e, st, "v", 0)
+        v.variants[VAL.index("Cons")] = [Opaque("Cons", "the cell", {})]
+        kd = z3.BitVec("info_kind", 64)
+        st.heap["metaarr"] = Agg("array", "[SpanInfo; 2]", [Blob("car info"), Blob("cdr info")])
+        box = Agg("struct", "Box", [Agg("struct", "Unique", [Ref(("H", "metaarr"))]), UnitV()])
+        inf = EnumV("SpanInfo", kd, {SI.index("Prim"): [Blob("span")], SI.index("Cons"): [Blob("span"), box], SI.index("Vec"): [Blob("span"), Blob("els")]})
+        st.heap["ref"] = Agg("struct", "Ref", [Ref(("V", v)), Ref(("V", inf))])
+        fr.locals[fn.args[0]] = Ref(("H", "ref"))
+        info.update(v=v, kd=kd)
+        # shape established by the constructors (c10_datum_constructors): list node exactly for pairs
+        return [z3.ULT(kd, bv(len(SI))), (kd == SI.index("Cons")) == (v.discr == VAL.index("Cons")), (kd == SI.index("Vec")) == (v.discr == VAL.index("Vector"))]
+    terms = eng.explore(fn.name, init)
+    res.absorb(eng)
+    n = {"some": 0, "none": 0}
+    v = info["v"]
+    is_pair, is_null = v.discr == VAL.index("Cons"), v.discr == VAL.index("Null")
+    for t in terms:
+        pc = list(t.state.pc)
+        if t.kind == "PANIC":
+            res.must_be_unsat(pc, "Ref::list_iter: reachable panic", onm)
+            continue
+        if t.kind != "RETURN" or not isinstance(t.value, EnumV):
+            continue
+        d = K.concrete(t.value.discr)
+        if d == 1:
+            n["some"] += 1
+            res.must_be_unsat(pc + [z3.Not(z3.Or(is_pair, is_null))], "the datum list accessor offers an iterator for a value that is neither a pair nor the "
+                              "empty list (the value's own list_iter says it is not a list)", onm)
+            it = t.value.variants[1][0]
+            cur = it.fields[0] if isinstance(it, Agg) else None
+            if isinstance(cur, EnumV):
+                cd = K.concrete(cur.discr)
+                if cd is not None:
+                    res.must_be_unsat(pc + [z3.Not(z3.If(is_pair, z3.BoolVal(LC[cd] == "Cons"), z3.BoolVal(LC[cd] == "Exhausted")))],
+                                      "the datum list iterator does not start at the pair / is not empty for the empty list", onm)
+        elif d == 0:
+            n["none"] += 1
+            res.must_be_unsat(pc + [z3.Or(is_pair, is_null)], "the datum list accessor refuses a pair / the empty list", onm)
+    for k, c in n.items():
+        res.vacuity.append(("Ref::list_iter returns %s" % k, c > 0))
 
 
 def claim_datum_constructors(cx, res, kf):
@@ -395,6 +456,10 @@ CLAIMS = [
           "then continues with the cdr's cell (pair), ends (empty list) or pauses with None and yields the tail once (anything "
           "else, #nil included) - the structure the value's own accessors expose; no panic on span information shaped by the builders",
           "arbitrary car / cdr kinds, all 4 cursor states (one-step induction over any list length)", configs=("fast",)),
+    Claim("c10_ref_list_iter", "C10", "quick", claim_ref_list_iter,
+          "Ref::list_iter gives an iterator exactly for pairs (starting at the pair) and the empty list (already exhausted) and None "
+          "for every other value, #nil included - as Value::list_iter does for the same value",
+          "arbitrary value kind with span information of the constructors' shape", configs=("fast",)),
     Claim("c10_datum_constructors", "C10", "quick", claim_datum_constructors,
           "Datum::primitive / vec / cons / quotation pair the given value with span information of the same shape and the given "
           "positions: Prim; Vec with the element infos; Cons over the given (car, cdr) infos; for quote shorthands the list "
